@@ -62,14 +62,46 @@ class C19(Check):
                                       r.randrange(0xe000, 0x10000), r.randrange(0x10000, 0x110000)])) for _ in range(ln))
             b = s.encode("utf-8")[:65535].decode("utf-8", "ignore").encode("utf-8")
             cases.append(("wname " + hexs(b), {}))
+        # the writer's flag logic under every entry kind and option: non-ASCII names must come back as written whether
+        # or not the entry is encrypted, compressed, large, a directory or a symlink (read back by CPython's zipfile,
+        # which decodes by the UTF-8 flag, and compared byte for byte with the writer model)
+        import wprog
+        from wprog import Opts
+        names = ["donn\u00e9es/Cura\u00e7ao-\u2603.txt", "\u00fc", "plain-ascii.txt", "\U0001f600/x", "caf\u00e9"]
+        progs = []
+        for nm in names:
+            nb = nm.encode("utf-8")
+            for pw in (None, b"pw"):
+                for m in (0, 8):
+                    progs.append(([("file", nb, Opts(method=m, pw=pw)), ("write", b"content"), ("finish",)], [nm]))
+                progs.append(([("dir", nb, Opts(pw=pw)), ("finish",)], [nm + "/"]))
+                progs.append(([("symlink", nb, b"target", Opts(pw=pw)), ("finish",)], [nm]))
+                progs.append(([("file", nb, Opts(large=True, pw=pw)), ("write", b"x"), ("file", b"second", Opts()), ("finish",)], [nm, "second"]))
+            progs.append(([("extra", nb, Opts()), ("endextra",), ("write", b"y"), ("finish",)], [nm]))
+            progs.append(([("aligned", nb, Opts(), 64), ("write", b"z"), ("finish",)], [nm]))
+        lines, outs = wprog.with_tables(self.exes["debug"], [dict(ops=o) for o, _ in progs])
+        for l, (o, exp) in zip(lines, progs):
+            cases.append((l, {"k": "wprog", "names": exp}))
         return cases
 
     def oracle(self, line, meta, out):
-        if out is None or not out.startswith("[") or out.startswith("[PANIC") or out.startswith("[Err"):
+        if out is None or not out.startswith("[") or out.startswith("[PANIC") or (out.startswith("[Err") and meta.get("k") != "wprog"):
             return "implementation did not return a value: %s" % (out or "")[:100]
         if "DIFF" in out or "CHANGED" in out:
             return "accessors disagree: " + out[-60:]
         parts = line.split()
+        if meta.get("k") == "wprog":
+            import io, zipfile, wprog
+            _, data = wprog.final_bytes(out)
+            if not data:
+                return "no archive produced: " + out[:100]
+            try:
+                got = zipfile.ZipFile(io.BytesIO(data)).namelist()
+            except Exception as e:
+                return "CPython zipfile cannot list the archive: %s" % e
+            if got != meta["names"]:
+                return "names read back by the flagged encoding %r differ from the names written %r" % (got, meta["names"])
+            return None
         if parts[0] == "text":
             flag, raw = int(parts[1]), bytes.fromhex(parts[2][1:])
             m = re.match(r"\[x([0-9a-f]*) x([0-9a-f]*)\]", out)
